@@ -87,6 +87,34 @@ func ZstdEncoderLevel(level zstd.EncoderLevel) ChunkEncoder {
 	return func(b []byte) []byte { return e.EncodeAll(b, nil) }
 }
 
+// ZstdEncoderStream compresses each chunk with a STREAMING encoder (content
+// size not pledged: the frame is not single-segment and declares the
+// encoder's window size in its header), as another implementation writing
+// the v2 format chunk by chunk through an io.Writer would.
+func ZstdEncoderStream(opts ...zstd.EOption) ChunkEncoder {
+	return func(b []byte) []byte {
+		var out bytes.Buffer
+		w, err := zstd.NewWriter(&out, append([]zstd.EOption{zstd.WithEncoderConcurrency(1)}, opts...)...)
+		if err != nil {
+			panic(err)
+		}
+		// several writes, so that the encoder cannot know the total in advance
+		for off := 0; off < len(b); off += 100000 {
+			end := off + 100000
+			if end > len(b) {
+				end = len(b)
+			}
+			if _, err := w.Write(b[off:end]); err != nil {
+				panic(err)
+			}
+		}
+		if err := w.Close(); err != nil {
+			panic(err)
+		}
+		return out.Bytes()
+	}
+}
+
 // ParseCasHeader parses and validates the header against the file length.
 func ParseCasHeader(file []byte) (*CasHeader, error) {
 	le := binary.LittleEndian
